@@ -2,7 +2,6 @@
 from contracts import codec_common as K
 
 LEVEL = 'proof'
-LEAN_LEMMAS = ['pow2_mono']
 TRUSTED = ['E-DATETIME: a datetime is an integer count of microseconds since 1970-01-01 UTC within years 1..9999; calendar.timegm(dt.utctimetuple()) is its floor seconds, dt.microsecond the remainder; timedelta(milliseconds=k) is exactly 1000k microseconds and datetime + timedelta adds or raises OverflowError (contracts/codec_common.py _stub_datetime; probed by the bounded timestamp stand-ins on the real library); date * 1e3 is real arithmetic (A-REAL)',
            'E-STRUCT: struct.Struct(fmt).pack/unpack are big-endian two\'s complement on the type\'s range and raise struct.error outside it',
            'E-FLOAT: IEEE pack/unpack are inverse (binary32 rounds once)', 'A-TYPES: argument kinds as declared per harness',
@@ -23,6 +22,7 @@ K.mk_uvint('C02')
 from contracts import varint_common as V
 V.mk_varint_pack('C02')
 TRUSTED += V.LEMMAS
+LEAN_LEMMAS = V.LEAN_LEMMAS
 
 from contracts import bounded_codec as B
 BOUNDED = [B.out_of_range_vints, B.decimal_exact, B.struct_probe, B.timestamp_encode_exact]
